@@ -167,7 +167,7 @@ func sectionsKey(doc map[string]interface{}) string {
 func hasKey(m map[string]interface{}, k string) bool { _, ok := m[k]; return ok }
 
 func checkC18(c *hx.Ctx) {
-	c.Rule("(1) patches generated around each structural rule - every violation singly and in pairs on top of a valid patch: id empty / 51 characters / non URL-safe / duplicated, key type not permitted for a declared purpose, zero or two key-material members, service type 31 characters, invalid URI endpoint (single, second of a list, after an object), disabled action, JSON-patch path / from addressing /publicKey or /service in every pointer spelling - plus random mutations of valid patches; oracle: whenever patchvalidator.Validate / ValidateDelta accepts, an independent rule checker finds no violation (and every generated violation is rejected); (2) every accepted delta, and every JSON patch over all six RFC 6902 operations x 34 pointer shapes for path and from x present/absent/null/ill-typed value (exhaustive for single operations, random lists of 1-3), is applied to 3 small documents in crash-isolated workers with a per-call watchdog: must return a document or an error, never panic, crash or hang, and an accepted JSON patch must leave the publicKey and service sections unchanged; non-trivial = rule-violating or RFC 6902 case; distinct = distinct (document, patch list)")
+	c.Rule("(1) patches generated around each structural rule - every violation singly and in pairs on top of a valid patch: id empty / 51 characters / non URL-safe / duplicated, key type not permitted for a declared purpose, zero or two key-material members (the surplus one also null or empty), service type 31 characters, invalid URI endpoint (single, second of a list, after an object), disabled action, JSON-patch path / from addressing /publicKey or /service in every pointer spelling - plus random mutations of valid patches; oracle: whenever patchvalidator.Validate / ValidateDelta accepts, an independent rule checker finds no violation (and every generated violation is rejected); (2) every accepted delta, and every JSON patch over all six RFC 6902 operations x 34 pointer shapes for path and from x present/absent/null/ill-typed value (exhaustive for single operations, random lists of 1-3), is applied to 3 small documents in crash-isolated workers with a per-call watchdog: must return a document or an error, never panic, crash or hang, and an accepted JSON patch must leave the publicKey and service sections unchanged; non-trivial = rule-violating or RFC 6902 case; distinct = distinct (document, patch list)")
 	c.Assume("the key-type/purpose table and the limits 50/30 are frozen from the statement and the pinned tree; URI validity = net/url.ParseRequestURI; the watchdog (30 s per call, normal calls take < 1 ms) counts as a violation of the termination clause")
 	pool := hx.NewPool(c, "compose", 16, 4*1024*1024, 30*time.Second)
 	defer pool.Close()
@@ -293,6 +293,12 @@ func checkC18(c *hx.Ctx) {
 		{"purpose unknown", func(e map[string]interface{}) { e["purposes"] = []interface{}{"authentication", "signing"} }},
 		{"both key materials", func(e map[string]interface{}) { e["publicKeyBase58"] = "3M5RCDjPTWPkKSN3sxUmmMqHbmRPegYP1tjcKyrDbt9J" }},
 		{"no key material", func(e map[string]interface{}) { delete(e, "publicKeyJwk") }},
+		{"second key material null", func(e map[string]interface{}) { e["publicKeyBase58"] = nil }},
+		{"base58 key with null jwk member", func(e map[string]interface{}) {
+			e["type"], e["purposes"] = "Ed25519VerificationKey2018", []interface{}{"authentication"}
+			e["publicKeyBase58"], e["publicKeyJwk"] = "3M5RCDjPTWPkKSN3sxUmmMqHbmRPegYP1tjcKyrDbt9J", nil
+		}},
+		{"second key material empty string", func(e map[string]interface{}) { e["publicKeyBase58"] = "" }},
 	}
 	svcViol := []viol{
 		{"id empty", func(e map[string]interface{}) { e["id"] = "" }},
